@@ -195,7 +195,104 @@ func chain(n int) (int, [][2]int) {
 	return n, es
 }
 
+// dense: node i depends on the 16 nodes before it (a totally ordered DAG with ~16 N edges)
+func dense(n int) (int, [][2]int) {
+	var es [][2]int
+	for i := 1; i < n; i++ {
+		lo := i - 16
+		if lo < 0 {
+			lo = 0
+		}
+		for j := lo; j < i; j++ {
+			es = append(es, [2]int{j, i})
+		}
+	}
+	return n, es
+}
+
+// conflictProfile gives node i (of n) its declared outputs. No profile contains a conflict: outputs are either
+// unique per target or shared only by targets that are ordered in all three shapes (same parity class in the
+// ladder, everything in chain / dense), which is what makes detectOutputConflicts consult targetsAreOrdered.
+func conflictProfile(profile string, i int) ([]model.Output, error) {
+	par := i % 2
+	switch profile {
+	case "file":
+		return []model.Output{model.NewOutput("file", fmt.Sprintf("f_%d.txt", i)), model.NewOutput("file", fmt.Sprintf("shared_%d.txt", par))}, nil
+	case "dir":
+		return []model.Output{model.NewOutput("dir", fmt.Sprintf("out_%d", i))}, nil
+	case "multidir":
+		return []model.Output{model.NewOutput("dir", fmt.Sprintf("out_%d", i)), model.NewOutput("dir", fmt.Sprintf("gen_%d/a", i)),
+			model.NewOutput("dir", fmt.Sprintf("shared_%d", par))}, nil
+	case "docker":
+		return []model.Output{model.NewOutput("docker", fmt.Sprintf("img_%d", par))}, nil
+	case "mixed":
+		return []model.Output{model.NewOutput("dir", fmt.Sprintf("out_%d", i)), model.NewOutput("file", fmt.Sprintf("f_%d.txt", i)),
+			model.NewOutput("file", fmt.Sprintf("shared_%d/x.txt", par)), model.NewOutput("dir", fmt.Sprintf("shared_%d", par))}, nil
+	}
+	return nil, fmt.Errorf("bad profile")
+}
+
 func init() {
+	// Cost of the output-conflict pass of analysis.BuildGraph: graph family x output profile x size.
+	register("graph.conflicts", func(req map[string]any) (any, error) {
+		size := asInt(req["size"])
+		var n int
+		var es [][2]int
+		switch req["shape"] {
+		case "chain":
+			n, es = chain(size)
+		case "ladder":
+			n, es = ladder(size/2 - 1)
+		case "dense":
+			n, es = dense(size)
+		default:
+			return nil, fmt.Errorf("bad shape")
+		}
+		profile, _ := req["profile"].(string)
+		reps := asInt(req["reps"])
+		if reps < 1 {
+			reps = 1
+		}
+		var best time.Duration = -1
+		var mallocs uint64
+		records := 0
+		for k := 0; k < reps; k++ {
+			nm := make(model.BuildNodeMap, n)
+			records = 0
+			for i := 0; i < n; i++ {
+				outs, err := conflictProfile(profile, i)
+				if err != nil {
+					return nil, err
+				}
+				records += len(outs)
+				t := &model.Target{Label: label.TargetLabel{Package: "", Name: fmt.Sprintf("n%d", i)}, Outputs: outs}
+				nm[t.Label] = t
+			}
+			for _, e := range es {
+				to := nm[label.TargetLabel{Package: "", Name: fmt.Sprintf("n%d", e[1])}].(*model.Target)
+				to.Dependencies = append(to.Dependencies, label.TargetLabel{Package: "", Name: fmt.Sprintf("n%d", e[0])})
+			}
+			runtime.GC()
+			var m0, m1 runtime.MemStats
+			runtime.ReadMemStats(&m0)
+			t0 := time.Now()
+			bg, err := analysis.BuildGraph(nm)
+			d := time.Since(t0)
+			runtime.ReadMemStats(&m1)
+			if err != nil {
+				return map[string]any{"ok": false, "err": s2b(err.Error())[:300]}, nil
+			}
+			_ = bg
+			if best < 0 || d < best {
+				best = d
+			}
+			if k == 0 || m1.Mallocs-m0.Mallocs < mallocs {
+				mallocs = m1.Mallocs - m0.Mallocs
+			}
+		}
+		return map[string]any{"ok": true, "nodes": n, "edges": len(es), "records": records, "mallocs": mallocs, "ns": best.Nanoseconds()}, nil
+	})
+
 	register("graph.trav", func(req map[string]any) (any, error) {
 		n := asInt(req["n"])
 		g, nodes, idx, err := plainGraph(n, edgeList(req["edges"]))
@@ -204,8 +301,6 @@ func init() {
 		}
 		qs, _ := req["q"].([]any)
 		res := make([][]int, 0, len(qs))
-		// one memo cache for all "ancset" queries of a request, as in detectOutputConflicts
-		ancCache := make(map[label.TargetLabel]map[label.TargetLabel]struct{})
 		for _, q := range qs {
 			m, _ := q.(map[string]any)
 			v := asInt(m["v"])
@@ -225,15 +320,6 @@ func init() {
 				list = g.GetDependencies(node)
 			case "rdeps":
 				list = g.GetDependants(node)
-			case "ancset":
-				set := analysis.VerifAncestorSet(g, node, ancCache)
-				out := make([]int, 0, len(set))
-				for l := range set {
-					out = append(out, idx[l])
-				}
-				sort.Ints(out)
-				res = append(res, out)
-				continue
 			default:
 				return nil, fmt.Errorf("bad query kind")
 			}
